@@ -118,6 +118,10 @@ CASES = [
     "np.asarray([1, 2, 3])[::-1], np.asarray([1, 2, 3])[5:], np.asarray([1, 2, 3])[-2:]",
     "np.array_equal(np.asarray([1.0, 2.0]), None), np.array_equal(None, None), np.array_equal(np.asarray([1, 2]), [1, 2])",
     "np.shares_memory(np.arange(6)[1:3], np.arange(6)), (lambda a: (np.shares_memory(a[1:3], a), np.shares_memory(a[:2], a[2:]), np.shares_memory(a.copy(), a)))(np.arange(6))",
+    "np.unique(np.asarray([3.0, 1.0, 3.0, 2.0])), np.unique(np.asarray([[2, 1], [1, 2]]))",
+    "np.swapaxes(np.arange(6).reshape(2, 3), 0, 1), np.arange(24).reshape(2, 3, 4).swapaxes(0, 2).shape, np.take(np.arange(6).reshape(2, 3), 1, axis=1), np.arange(24).reshape(2, 3, 4).take(2, axis=2)",
+    "np.fmod(-3.0, 2.0), np.fmod(3.0, -2.0), np.fmod(np.asarray([-3.5, 3.5, -4.0]), 2.0), np.fmod(-1.0, 6.283185307179586)",
+    "np.result_type(np.int16, 100), np.result_type(np.int16, 1.5), np.result_type(np.float32, 2), np.result_type(np.float32, 2.5), np.result_type(np.int64, np.float32), np.result_type(np.dtype('int16'), np.int64(3))",
     "np.diff(np.asarray([1.0, 2.5, 4.0])), np.diff(np.asarray([1.0, 2.5]), append=7.0), np.diff(np.asarray([1, 2]), prepend=0)",
     "np.nan_to_num(np.asarray([1.5, np.nan, 3.0])), np.nan_to_num(np.asarray([1, 2])), np.nan_to_num(np.asarray([np.nan, np.nan, 2.0])).dtype",
     "np.asarray([[0.0, 1.0], [1.0, 2.0]])[1:, 0], np.asarray([[0.0, 1.0], [1.0, 2.0]])[:-1, 1]",
